@@ -93,7 +93,23 @@ def ite_array(V, b, arr, junk_name):
 
 
 def cold_clone(V, o):
-    """A freshly constructed object with the same values, dt and settings: all caches cold."""
+    """A freshly constructed object with the same values, dt and settings: built by the REAL constructor, so it carries no
+    attribute the constructor does not create (a memoised field added by a later code change is absent here)."""
+    itp = V.itp
+    kw = {}
+    sff = itp.get_attr(shallow(o), 'smooth_fa_freqs')
+    kw['smooth_fa_freqs'] = sff
+    if o.cls.name == 'AccSignal':
+        kw['response_times'] = itp.get_attr(shallow(o), 'response_times')
+    vals = o.attrs.get('_values')
+    if not is_arr(vals):
+        raise T.PyExc('TypeError', 'values of the signal is not an array (%s)' % type(vals).__name__)
+    c = itp.call(o.cls, [vals, o.attrs.get('_dt')], kw)
+    return c
+
+
+def raw_cold(V, o):
+    """Internal helper for make_state: same attributes, caches cold (used only to DEFINE F(state) before flags exist)."""
     c = ObjVal(o.cls)
     c.attrs = dict(o.attrs)
     c.attrs['_cached_fa'] = False
@@ -151,7 +167,7 @@ def make_state(V, cls='AccSignal', values=None, prefix='', cold=False, dtype='fl
                            _velocity=sym_array(V, prefix + 'junk_v0', n), _displacement=sym_array(V, prefix + 'junk_d0', n))
         return o
     # F(state): run the real generators on a cold clone
-    cold = cold_clone(V, o)
+    cold = raw_cold(V, o)
     b_fa, b_sm = V.bool(prefix + 'cached_fa'), V.bool(prefix + 'cached_smooth_fa')
     fa = itp.get_attr(shallow(cold), 'fa_spectrum')
     faf = itp.get_attr(shallow(cold), 'fa_freqs')
@@ -203,7 +219,11 @@ def observe(V, o, reader):
 
 def check_fresh_equivalence(V, out, o, readers, tag=''):
     """Every derived quantity of o equals what a freshly constructed object with the same values/dt/settings reports."""
-    cold = cold_clone(V, o)
+    try:
+        cold = cold_clone(V, o)
+    except T.PyExc as e:
+        out.prove('%sfresh-object-with-same-values-constructible[%s]' % (tag, e.kind), False)
+        return
     for r in readers:
         try:
             got = observe(V, o, r)
